@@ -387,7 +387,19 @@ pub fn run(ctx: &Ctx) -> CheckResult {
         sc.meta = json!({"stale": [scen::OUT, scen::DBG]});
         stale_cases.push(sc);
     }
-    let (_r, st_s, f_s, h_s) = par_map(ctx, &stale_cases, |w, _, c| w.judge(c));
+    let (_r, st_s, f_s, h_s) = par_map(ctx, &stale_cases, |w, _, c| {
+        w.judge(c);
+        // ... and with what an interrupted earlier run of the same command leaves behind: both outputs
+        // exist as proper prefixes of themselves, or as empty files
+        let mut fresh = c.clone();
+        fresh.inputs.retain(|i| i.path != scen::OUT && i.path != scen::DBG);
+        fresh.name = fresh.name.replace(" [stale outputs]", "");
+        for empty in [false, true] {
+            if let Some(pc) = prefix_stale_case(w, &fresh, empty) {
+                w.judge(&pc);
+            }
+        }
+    });
     stats.merge(st_s);
     findings.extend(f_s);
     herr.extend(h_s);
